@@ -2,6 +2,50 @@ open Model
 open Util
 open Win
 
+(* ---- thorough tier: a sample of the very same cases is re-evaluated INSIDE Coq (vm_compute on the
+   definitions the theorems are about), so that extraction + this driver are cross-checked against the
+   kernel's evaluation. VERIF_COQ_OUT names the file to write, VERIF_COQ_N the sample size. ---- *)
+let coq_out = (try Some (open_out (Sys.getenv "VERIF_COQ_OUT")) with Not_found -> None)
+let coq_n = (try int_of_string (Sys.getenv "VERIF_COQ_N") with _ -> 40)
+let coq_count = ref 0
+let () = match coq_out with
+  | Some oc -> output_string oc "From SV Require Import Model.Tumbling.\nOpen Scope Z_scope.\n"
+  | None -> ()
+let cz z = let i = int_of_z z in if i < 0 then Printf.sprintf "(%d)" i else string_of_int i
+let coq_op = function
+  | Add (id, ts, now) -> Printf.sprintf "Add %s %s %s" (cz id) (cz ts) (cz now)
+  | AddNoTs id -> Printf.sprintf "AddNoTs %s" (cz id)
+  | Tick now -> Printf.sprintf "Tick %s" (cz now)
+  | DeliverBegin -> "DeliverBegin" | FireStep -> "FireStep"
+let coq_ev = function
+  | EvAdd (id, ts) -> Printf.sprintf "EvAdd %s %s" (cz id) (cz ts)
+  | EvNoTs id -> Printf.sprintf "EvNoTs %s" (cz id)
+  | EvTick -> "EvTick" | EvDB w -> Printf.sprintf "EvDB %s" (cz w) | EvD0 -> "EvD0" | EvDE -> "EvDE"
+  | EvBatch b -> Printf.sprintf "EvBatch {| b_start := %s; b_end := %s; b_rows := [%s]; b_late := %s |}" (cz b.b_start) (cz b.b_end)
+                   (String.concat "; " (List.map (fun r -> Printf.sprintf "(%s, %s)" (cz (fst r)) (cz (snd r))) b.b_rows)) (if b.b_late then "true" else "false")
+let coq_case (c : cfg) (hops : hop list) : unit =
+  match coq_out with
+  | Some oc when !coq_count < coq_n ->
+      incr coq_count;
+      (* expand the drain op into the deliveries the model actually performs *)
+      let rec go s = function
+        | [] -> ([], [])
+        | HOp o :: r -> let (s1, e) = step c s o in let (ts, es) = go s1 r in (Printf.sprintf "TOp (%s)" (coq_op o) :: ts, e @ es)
+        | HDeliver inj :: r -> let (s1, e) = deliver c s inj in let (ts, es) = go s1 r in
+            (Printf.sprintf "TDeliver [%s]" (String.concat "; " (List.map (fun l -> "[" ^ String.concat "; " (List.map coq_op l) ^ "]") inj)) :: ts, e @ es)
+        | HDrain :: r ->
+            let rec drain s n tacc eacc =
+              if n = 0 then (s, tacc, eacc) else
+              let (s1, e) = deliver c s [] in
+              if e = [EvD0] then (s1, tacc @ ["TDeliver []"], eacc @ e) else drain s1 (n - 1) (tacc @ ["TDeliver []"]) (eacc @ e) in
+            let (s1, ts0, es0) = drain s 200 [] [] in
+            let (ts, es) = go s1 r in (ts0 @ ts, es0 @ es) in
+      let (tops, evs) = go st0 hops in
+      Printf.fprintf oc "Goal snd (run_top {| size := %s; ooo := %s; lateness := %s; idle := 0 |} st0 [%s]) = [%s].\nProof. vm_compute. reflexivity. Qed.\n"
+        (cz c.size) (cz c.ooo) (cz c.lateness) (String.concat "; " tops) (String.concat "; " (List.map coq_ev evs));
+      flush oc
+  | _ -> ()
+
 let handle (toks : string list) : string =
   match toks with
   | "E" :: size :: ooo :: late :: base :: rest ->
@@ -9,6 +53,7 @@ let handle (toks : string list) : string =
        | [ []; ops; obs ] | [ ops; obs ] when true ->
            let c = { size = zs size; ooo = zs ooo; lateness = zs late; idle = Z0 } in
            let hops = parse_ops (zs base) ops in
+           coq_case c hops;
            let model = show_trace (run_hops c hops) in
            let impl = String.concat " " obs in
            let tbl = Hashtbl.create 64 in
